@@ -8,6 +8,7 @@ import z3
 from .. import build as B
 from .. import cshapes as CS
 from .. import oracle as O
+from .. import purity
 
 PROP = "C16"
 RULE = (
@@ -19,7 +20,7 @@ RULE = (
 ASSUMPTIONS = ["term level: exact coefficient comparison (QF_LRA/NRA)", "contract level: coefficients concrete, constants symbolic; constructor re-simplifies (exact LP stub)"]
 BOUNDS = {"quick": {"variables": "<=4", "terms": "<=2 a, <=3 g"}, "thorough": {"variables": "<=5", "terms": "<=2 a, <=3 g"}}
 OPTS = {"quick": {"tier_budget_s": 200, "max_paths": 3000, "job_budget_s": 60, "witness_rate": 0.5}, "thorough": {"tier_budget_s": 1500, "max_paths": 20000, "job_budget_s": 300}}
-REACH = {"quick": ["OK", "IAE", "term", "case:fresh", "case:existing-input", "case:existing-output", "case:absent", "case:same", "sequence"]}
+REACH = {"quick": ["OK", "IAE", "term", "case:fresh", "case:existing-input", "case:existing-output", "case:absent", "case:same", "case:cancelling", "sequence"]}
 
 
 def jobs(tier, seed):
@@ -35,7 +36,7 @@ def jobs(tier, seed):
     for i in range(n):
         ins, outs = rng.choice([(["x", "u"], ["y"]), (["x"], ["y", "z"]), (["x", "u"], ["y", "z"])])
         c = CS.rand_contract(rng, ins, outs, alphabet, na=(0, 1, 2), ng=(1, 2, 3))
-        case = ["fresh", "existing-input", "existing-output", "absent", "same"][i % 5]
+        case = ["fresh", "existing-input", "existing-output", "absent", "same", "cancelling"][i % 6]
         src = rng.choice(ins + outs)
         if case == "fresh":
             tgt = "n"
@@ -45,6 +46,18 @@ def jobs(tier, seed):
             tgt = rng.choice([v for v in outs if v != src] or outs)
         elif case == "absent":
             src, tgt = "q", rng.choice(ins + outs + ["n"])
+        elif case == "cancelling":
+            # merging two inputs (or two outputs) whose coefficients cancel in some constraint: a variable-free
+            # constraint 0 <= c is left behind, which is unsatisfiable when c < 0
+            side = outs if len(outs) > 1 else ins
+            if len(side) < 2:
+                side = ins if len(ins) > 1 else outs
+            src, tgt = side[0], side[-1]
+            k = rng.choice([1, 2])
+            row = {src: k, tgt: -k}
+            (c["g"] if src in outs else c["a"]).insert(0, row)
+            if rng.random() < 0.5:
+                c["g"].append({src: -k, tgt: k, (outs[0] if outs[0] not in (src, tgt) else ins[0]): 1})
         else:
             tgt = src
         out.append({"kind": "contract", "case": case, "c": c, "maps": [[src, tgt]], "via": rng.choice(["rename_variable", "rename_variables"])})
@@ -153,6 +166,7 @@ def run(ctx, job):
     c = B.mk_contract(ctx, job["c"], "p")
     maps = job["maps"]
     ref = ref_interface(job["c"]["in"], job["c"]["out"], maps)
+    before = purity.guard(ctx, {"contract": c})
     try:
         if job["via"] == "rename_variable" and len(maps) == 1:
             r = c.rename_variable(B.Var(maps[0][0]), B.Var(maps[0][1]))
@@ -163,11 +177,13 @@ def run(ctx, job):
         return {"cls": "IAE"}
     except ValueError as e:
         # the constructor re-simplifies: unsatisfiable contracts may be rejected
+        purity.check_unchanged(ctx, before, {"contract": c}, "rename-leaves-the-contract-it-is-called-on-unchanged")
         return {"cls": B.classify(e)}
     except Exception as e:
         ctx.expect("only-documented-exceptions", False, info=B.classify(e) + "@" + B.innermost_pacti_frame(e))
         return {"cls": B.classify(e)}
     ctx.expect("clash-raises-IAE", ref is not None)
+    purity.check_unchanged(ctx, before, {"contract": c}, "rename-leaves-the-contract-it-is-called-on-unchanged")
     if ref is None:
         return {"cls": "OK", "res": r}
     ctx.expect("interface-updated", [v.name for v in r.inputvars] == ref[0] and [v.name for v in r.outputvars] == ref[1], info=f"{[v.name for v in r.inputvars]} {[v.name for v in r.outputvars]} vs {ref}")
